@@ -82,7 +82,34 @@ func runC02(p *Program, r *Result) {
 					cpCall, _ = cp.High.(*ssa.Call)
 				}
 				if cpCall == nil || !isBuiltin(&cpCall.Call, "copy") || !strings.HasPrefix(val, "Slice(Field(Recv.buf), _, copy(Slice(Field(Recv.buf), _, _), ") {
-					r.Bad(fs.Fn.String(), "store:unread", r.pos(fs.Store), "r.unread is set to "+val+", not to r.buf[:copy(r.buf[:], out)]")
+					// the output of Open released as it is (decrypted into a buffer of its own):
+					// on every path the stored value is the output of an Open whose error is nil
+					bad := ""
+					n := 0
+					for _, pa := range paths {
+						if !pathHas(pa, fs.Store) {
+							continue
+						}
+						n++
+						src := stripConv(pa.ResolveAt(fs.Store.Val, blockIndexOnPath(pa, fs.Store.Block())))
+						ex, isEx := src.(*ssa.Extract)
+						var oc *ssa.Call
+						if isEx {
+							oc, _ = ex.Tuple.(*ssa.Call)
+						}
+						if oc == nil || calleeName(&oc.Call) != openName || ex.Index != 0 {
+							bad = "r.unread is set to " + val + ", neither r.buf[:copy(r.buf[:], out)] nor the output of AEAD.Open (path " + pa.String() + ")"
+							break
+						}
+						if _, ok := errFactFor(ctb.pathAtoms(pa), oc, true); !ok {
+							bad = "on path " + pa.String() + " the output of Open at " + r.pos(oc) + " is released without its error having been found nil"
+							break
+						}
+					}
+					if n == 0 && bad == "" {
+						bad = "no path reaches the store"
+					}
+					r.Check(bad == "", fs.Fn.String(), "store:unread", r.pos(fs.Store), itoa(n)+" paths: released bytes are the output of the Open whose error is nil on that path", bad)
 					continue
 				}
 				bad := ""
@@ -205,11 +232,25 @@ func runC02(p *Program, r *Result) {
 				return ok && calleeName(c.Common()) == inc.String()
 			})
 			okr := true
+			// the same exploration under the assumption that this Open succeeded: whatever it
+			// still reaches is not "on the failure edge"
+			succeeded := map[ssa.Value]bool{}
+			if oc.Value() != nil && oc.Value().Referrers() != nil {
+				for _, rr := range *oc.Value().Referrers() {
+					if ex, ok := rr.(*ssa.Extract); ok && isErrorType(ex.Type()) {
+						succeeded[ex] = true
+					}
+				}
+			}
+			visOK := p.ReachAssuming([]Loc{locAfter(oc.(ssa.Instruction))}, func(in ssa.Instruction) bool {
+				c, ok := in.(ssa.CallInstruction)
+				return ok && calleeName(c.Common()) == inc.String()
+			}, succeeded)
 			for in := range vis {
 				if c, isC := in.(ssa.CallInstruction); isC && calleeName(c.Common()) == openName {
 					// allowed only as the retry: must be on the failure edge of oc
 					facts := ctb.FactsAt(in.Block())
-					if _, f := errFactFor(facts, oc.Value(), false); !f {
+					if _, f := errFactFor(facts, oc.Value(), false); !f && (len(succeeded) == 0 || visOK[in]) {
 						okr = false
 					}
 				}
